@@ -840,6 +840,8 @@ pub fn mom_case_strategy() -> BoxedStrategy<MomCase> {
         2 => (1usize..40, 1i16..4).prop_map(|(n, d)| (0..n).map(|k| -(k as i16) * d).collect::<Vec<i16>>()),
         2 => (2usize..40, 1i16..6).prop_map(|(n, d)| (0..n).map(|k| if k % 2 == 0 { d } else { -d }).collect::<Vec<i16>>()),
         1 => (1usize..20).prop_map(|n| vec![0i16; n]),
+        // long sustained trends (more than 64 consecutive signal steps on one side)
+        1 => (66usize..230, 1i16..3, any::<bool>()).prop_map(|(n, d, up)| (0..n).map(|k| if up { (k as i16) * d } else { -(k as i16) * d }).collect::<Vec<i16>>()),
         4 => proptest::collection::vec(-3i16..=3, 2..50).prop_map(|steps| {
             let mut p = 0i16;
             steps.into_iter().map(|s| { p = (p + s).clamp(-150, 150); p }).collect::<Vec<i16>>()
@@ -847,7 +849,12 @@ pub fn mom_case_strategy() -> BoxedStrategy<MomCase> {
     ];
     let widen = prop_oneof![1 => Just(vec![]), 2 => proptest::collection::vec(any::<bool>(), 0..50)];
     (any::<bool>(), 0u8..2, 1u32..=10, 500u32..100_000, (path, widen), prop_oneof![4 => 1u16..=8, 1 => 9u16..=20], prob_code(), 1u32..=100, (1u32..=1000, prop_oneof![2 => 0u32..5_000, 3 => 5_000u32..200_000], 1u32..=5_000, prop_oneof![1 => Just(0u32), 2 => 0u32..3_000], -2000i32..=3000, 0u32..=3_000), any::<u64>())
-        .prop_map(|(market, asset, tick, level_k, (path, widen), n, p_cancel, trade_vol, (decay_milli, demand_milli, scale_milli, ratio_milli, mu_milli, sigma_milli), seed)| MomCase { market, asset, tick, level_k, path, widen, n, p_cancel, trade_vol, decay_milli, demand_milli, scale_milli, ratio_milli, mu_milli, sigma_milli, seed })
+        .prop_map(|(market, asset, tick, level_k, (path, widen), n, p_cancel, trade_vol, (decay_milli, demand_milli, scale_milli, ratio_milli, mu_milli, sigma_milli), seed)| {
+            // long trends: no cancellations in half of them, so that resting orders accumulate
+            let p_cancel = if path.len() > 64 && seed % 2 == 0 { 0 } else { p_cancel };
+            let n = if path.len() > 64 { n.min(4) } else { n };
+            MomCase { market, asset, tick, level_k, path, widen, n, p_cancel, trade_vol, decay_milli, demand_milli, scale_milli, ratio_milli, mu_milli, sigma_milli, seed }
+        })
         .boxed()
 }
 
